@@ -29,6 +29,12 @@ CHECKS = {
   text="For every case of the C06 enumeration the encrypted file is read with ref/boxwalk: tenc/schm/frma; per sample the senc entry; sub-sample entries partition the sample; NAL length fields, NAL headers, non-VCL units and (cbcs) slice headers clear; every VCL unit > 127 bytes protected to its end, starting <= 127 bytes in and in 16-byte multiples (cenc) or at the slice header end (cbcs); audio whole; saiz sizes = senc entry sizes, saio offset = first entry; IV(k+1) = IV(k) + blocks used; protected bytes = ref/cencref; every other box of the fragment identical to the clear input.",
   note="AES block primitive of the Go standard library trusted; the modes are re-implemented and self-tested against NIST SP 800-38A vectors. One known finding (saiz entry size wraps above 255) listed in known_findings.txt.",
   design="3 C07"),
+ "C20": dict(
+  engine="E5 cooperative scheduler (pre-emption-bounded stateless exploration)",
+  technique="stateless model checking of the real code under a controlled cooperative scheduler: all schedules of 2-3 goroutine bodies up to a pre-emption bound at I/O-call granularity and all interleavings at API-call granularity; oracle on every schedule: per-goroutine observations equal the solo run, shared inputs unchanged, deep fingerprint of every package-level variable unchanged; plus a separate free-running race-detector pass of the same bodies",
+  text="7 bodies (DecodeFileSR->Info->EncodeSW, DecodeFile->Encode, encrypt, decrypt, Annex B + parameter-set/SEI/ADTS parsing, DecodeFileSR(own copy)->decrypt, DecodeFileSR(shared bytes)->decrypt) over the same shared input bytes; every pair (incl. a body with itself): all interleavings at API-call granularity (unbounded) and all schedules with <= 1 (thorough: <= 2) pre-emptions where every Read/Seek/Write and every SliceReader/SliceWriter method call is a scheduling point (~700 points per pair); triples at call granularity with <= 2 pre-emptions. 45 000 schedules quick, 1.8 million schedules / 1.6 billion scheduling points thorough. 32 package-level variables fingerprinted through generated accessors.",
+  note="The scheduler sees only the points it is given; code between two points runs atomically, unsynchronised accesses in between are covered by the separate -race pass (16 goroutines, free-running), which is blind to writes done in assembly (AES). The library contains no sync primitives or go statements (re-checked by a source scan at every run). One known finding (DecodeFileSR aliasing + in-place decryption writes the shared input).",
+  design="3 C20"),
  "C16": dict(
   engine="E1-style explicit-state search over byte strings (isolated workers)",
   technique="explicit-state search: states = byte strings reached from ~1000 valid elementary-stream seeds by every single deviation (bit, byte, word, truncation, inserted runs, spliced huge Exp-Golomb code at every bit offset) plus all short strings; every state fed to every codec-helper entry point in RLIMIT_AS-isolated workers; oracle per call: recovered panic, time, allocated bytes",
@@ -150,6 +156,8 @@ def main():
       engines=[
         dict(name="E1 box-space search (explicit-state over byte strings, isolated workers)", path="/verif/checks/e1_run.go", serves_properties=["C01","C02","C03","C04"], kind_free_text="explicit-state search: byte strings accepted by the decoder are states, single deviations are transitions, seeds harvested from all testdata + constructed instances; isolated worker subprocesses"),
         dict(name="E2 history explorer", path="/verif/checks/c05.go", serves_properties=["C02","C05","C19"], kind_free_text="DFS over operation histories on real builder objects; every prefix is a checked state"),
+        dict(name="E5 cooperative scheduler (pre-emption-bounded stateless exploration)", path="/verif/internal/sched", serves_properties=["C20"], kind_free_text="hand-written cooperative scheduler: harness goroutines yield at hooked I/O and API-call points; DFS over choice sequences with iterative context bounding; worker processes with GOMAXPROCS=1"),
+        dict(name="E1-style explicit-state search over byte strings (isolated workers)", path="/verif/checks/c16.go", serves_properties=["C16"], kind_free_text="seeds + all single deviations + all short strings fed to every codec-helper entry point in RLIMIT_AS-isolated workers with resume after worker death"),
         dict(name="E3 product enumerator", path="/verif/internal/enum", serves_properties=["C06","C07","C08","C09","C10","C11","C14","C15","C17","C18"], kind_free_text="exhaustive enumeration of products/compositions/subsets/k-deviation tuples, real code vs Go reference model"),
       ],
       checks=checks,
